@@ -1,6 +1,7 @@
 package main
 
 import (
+	"bytes"
 	"encoding/hex"
 	"fmt"
 	"math/big"
@@ -550,6 +551,10 @@ func genC13(g *Gen) {
 		emit("malformed-then-division-by-zero", []string{"+", "1 1", "(", "0x "}[g.R.Intn(4)]+e+"/0")
 	}
 	c13UnitBase(g)
+	c13CLIMalformed(g)
+	for _, e := range []string{"7%0", "7 % 0", "5%2", "7%0x0", "7 % 0^3", "1&0", "8>>1", "2**3", "1|0", "~1", "7//0", "7%", "%7"} {
+		emit("other-languages-operators", e)
+	}
 	// the recorded defect: yard.result applies a trailing operator to the two operands below it
 	for _, e := range []string{"1+0/", "3-0/", "7 + 0 /", "1+2+0/", "5*0/", "2^0/", "0/", "1+2*0/", "1-1*0 / ", "2+3^", "2*3^", "2+3*"} {
 		emit("trailing-operator-fixed", e)
@@ -598,6 +603,29 @@ func c13UnitBase(g *Gen) {
 		}
 		if msg != "" && !g.notesViolation() {
 			g.Notes = append(g.Notes, fmt.Sprintf("VIOLATION: the well-formed expression %q %s, its value is %d", c.e, msg, c.want))
+		}
+	}
+}
+
+// c13CLIMalformed: the value the search is run for comes from the evaluator; a malformed expression on the
+// command line must make `addchain search` end with a non-zero status and print no script (a fall-back
+// that "repairs" the expression would search for a number the user never wrote).
+func c13CLIMalformed(g *Gen) {
+	if addchainBin() == "" {
+		return
+	}
+	for _, e := range []string{"12ab", "1_0", "1e1", "+7", "f", "ff", "0x", "1 1", "0b102", "2^", "abc", "0xg", "7 7 7", "1_000", "dead_beef"} {
+		var err error
+		if pn := safe(func() { _, err = verifhooks.CalcEval(e) }); pn != "" || err == nil {
+			continue // not malformed for the evaluator itself: nothing to compare
+		}
+		r := runCLI([]string{"search", e}, nil, 60*time.Second)
+		g.Count("cli-malformed")
+		if r.timedOut {
+			continue
+		}
+		if (r.exit == 0 || len(bytes.TrimSpace(r.stdout)) > 0) && !g.notesViolation() {
+			g.Notes = append(g.Notes, fmt.Sprintf("VIOLATION: `addchain search %q`: the evaluator refuses the expression (%v) but the command exits with status %d and prints %q", e, err, r.exit, string(r.stdout)))
 		}
 	}
 }
